@@ -51,7 +51,8 @@ FAMILIES = {
 WITNESSES = {
     "wdt": ["watchdog timed out", "remaining saturated at zero", "fed while counting"],
     "wait": [],
-    "i2c": ["byte written and acknowledged", "byte written, not acknowledged", "byte read", "stop", "repeated start"],
+    "i2c": ["byte written and acknowledged", "byte written, not acknowledged", "byte read", "stop", "repeated start",
+            "stop on a free bus", "stop or start straight after a start"],
     "spis": ["transfer reported", "transfer after the minimum gap", "full word sent"],
     "spim": ["transfer completed", "back-to-back start", "start during a transfer", "mixed miso bits read back"],
     "tx": ["back-to-back frame", "frame ended, line idle", "stop bit edge"],
@@ -292,7 +293,8 @@ def run(prop, report, tier, seed, parallel=None):
                   "width 2-4 and dividers 2-5, UART bit periods 2-16 cycles, I2C clock load 1-5)")
     report.assume("UART receiver: bit period >= 4 cycles (exact rate) / >= 8 cycles (+-2 % mismatch, any phase), the "
                   "line idles for three cycles after reset; SPI slave: master half period >= 4 cycles; I2C: clock "
-                  "load >= 1, no clock stretching, commands follow the I2C transaction grammar")
+                  "load >= 1, no clock stretching, commands follow the I2C transaction grammar, plus STOP / START commands "
+                  "that have nothing to do (STOP with no byte phase open, START straight after a START)")
     tl = tasks(tier)
     par = parallel if parallel is not None else int(os.environ.get("VERIF_C19_PARALLEL", "6"))
     ctx = mp.get_context("fork")
